@@ -84,10 +84,10 @@ Section Entity.
     Hypothesis HE : forall n e, fn_ok (E n e) (fun t' k => den_ent g t' e k).
 
     (** ** The export loop of an instance type *)
-    Lemma inst_loop_ok me O : forall l s s' done x,
+    Lemma inst_loop_ok vn me O : forall l s s' done x,
       pre ((true, id_idx me) :: O) s ->
       get_if (cs_types s) me = Some x -> Forall2 (item_ok ((true, id_idx me) :: O) (cs_types s)) done (i_exports x) ->
-      inst_loop hf g E me l s = COk s' ->
+      inst_loop hf g E vn me l s = COk s' ->
       agree [(true, id_idx me)] (cs_types s) (cs_types s') /\ pre ((true, id_idx me) :: O) s' /\
       exists x', get_if (cs_types s') me = Some x' /\
                  Forall2 (item_ok ((true, id_idx me) :: O) (cs_types s')) (done ++ l) (i_exports x').
@@ -102,7 +102,7 @@ Section Entity.
         (* use_or_own / self-ownership reset *)
         assert (X : agree [] (cs_types s1) (cs_types s2) /\ cs_cache s2 = cs_cache s1).
         { destruct e as [ | | |rf cr| | ]; try (injection H2 as <-; split; [apply agree_refl | reflexivity]).
-          inv_bind H2 as sa Ha. destruct (use_or_own_frame g _ _ _ _ _ _ _ Ha) as [Aa Ca].
+          inv_bind H2 as sa Ha. destruct (use_or_own_frame g _ _ _ _ _ _ _ _ Ha) as [Aa Ca].
           destruct (reset_self_owner_frame _ _ _ _ H2) as [Ab Cb].
           split; [eapply agree_trans; eassumption | congruence]. }
         destruct X as [A2 C2].
@@ -138,7 +138,7 @@ Section Entity.
       { apply pre_open_if; [exact Hp | exact A0|]. unfold t0. cbn [t_interfaces]. rewrite app_length. cbn. lia. }
       assert (G0 : get_if (cs_types (with_types s t0)) me = Some (mkif (iface_id_of name) [] [])).
       { unfold get_if, t0, me. cbn [cs_types with_types t_tag t_interfaces]. apply lookup_new. }
-      destruct (inst_loop_ok me O exports (with_types s t0) s1 [] _ P0 G0 (Forall2_nil _) H1) as [A1 [P1 [x1 [Hx1 Hd1]]]].
+      destruct (inst_loop_ok v me O exports (with_types s t0) s1 [] _ P0 G0 (Forall2_nil _) H1) as [A1 [P1 [x1 [Hx1 Hd1]]]].
       cbn [app] in Hd1. cbn [cs_types with_types] in A1.
       assert (A01 : agree [] (cs_types s) (cs_types s1)) by (eapply agree_close_if; eassumption).
       assert (Hfresh : ~ In (true, id_idx me) O).
@@ -158,10 +158,10 @@ Section Entity.
     (** ** The import and export loops of a component type *)
     Definition witem_ok (O : list slot) (t : types) := item_ok O t.
 
-    Lemma comp_imports_ok me O : forall l s s' done x,
+    Lemma comp_imports_ok vn me O : forall l s s' done x,
       pre ((false, id_idx me) :: O) s ->
       get_world (cs_types s) me = Some x -> Forall2 (item_ok ((false, id_idx me) :: O) (cs_types s)) done (w_imports x) ->
-      comp_imports hf g E me l s = COk s' ->
+      comp_imports hf g E vn me l s = COk s' ->
       agree [(false, id_idx me)] (cs_types s) (cs_types s') /\ pre ((false, id_idx me) :: O) s' /\
       exists x', get_world (cs_types s') me = Some x' /\ w_exports x' = w_exports x /\
                  Forall2 (item_ok ((false, id_idx me) :: O) (cs_types s')) (done ++ l) (w_imports x').
@@ -174,7 +174,7 @@ Section Entity.
         destruct (agree_get_world _ _ _ A1 _ _ Hx (fun F => F)) as [x1 [Hx1 [Ei1 Ee1]]].
         assert (X : agree [] (cs_types s1) (cs_types s2) /\ cs_cache s2 = cs_cache s1).
         { destruct e as [ | | |rf cr| | ]; try (injection H2 as <-; split; [apply agree_refl | reflexivity]).
-          exact (use_or_own_frame g _ _ _ _ _ _ _ H2). }
+          exact (use_or_own_frame g _ _ _ _ _ _ _ _ H2). }
         destruct X as [A2 C2].
         assert (P2 : pre O' s2) by (eapply pre_step_nil; eassumption).
         destruct (agree_get_world _ _ _ A2 _ _ Hx1 (fun F => F)) as [x2 [Hx2 [Ei2 Ee2]]].
@@ -236,7 +236,7 @@ Section Entity.
       { apply pre_open_world; [exact Hp | exact A0|]. unfold t0. cbn [t_worlds]. rewrite app_length. cbn. lia. }
       assert (G0 : get_world (cs_types (with_types s t0)) me = Some (mkworld (iface_id_of name) [] [] [])).
       { unfold get_world, t0, me. cbn [cs_types with_types t_tag t_worlds]. apply lookup_new. }
-      destruct (comp_imports_ok me O imports (with_types s t0) s1 [] _ P0 G0 (Forall2_nil _) H1) as [A1 [P1 [x1 [Hx1 [Ee1 Hd1]]]]].
+      destruct (comp_imports_ok v me O imports (with_types s t0) s1 [] _ P0 G0 (Forall2_nil _) H1) as [A1 [P1 [x1 [Hx1 [Ee1 Hd1]]]]].
       cbn [app w_exports] in Hd1, Ee1. cbn [cs_types with_types] in A1.
       assert (Hd1e : Forall2 (item_ok ((false, id_idx me) :: O) (cs_types s1)) [] (w_exports x1)) by (rewrite Ee1; constructor).
       destruct (comp_exports_ok me O exports s1 s2 [] x1 P1 Hx1 Hd1e H2) as [A2 [P2 [x2 [Hx2 [Ei2 Hd2]]]]].
@@ -371,8 +371,8 @@ Section Entity.
       Forall2 (fun a b => fst a = fst b /\ tree_faithful g t (snd a) (snd b)) (vg_imports g) (w_imports w) /\
       Forall2 (fun a b => fst a = fst b /\ tree_faithful g t (snd a) (snd b)) (vg_exports g) (w_exports w).
   Proof.
-    intros Hi He H. unfold from_graph in H.
-    inv_bind H as [imports s1] H1. inv_bind H as [exports s2] H2.
+    intros Hi He H. unfold from_graph in H. inv_bind H as [[imports exports] s2] Hc. unfold conv_items in Hc.
+    inv_bind Hc as [imports' s1] H1. inv_bind Hc as [exports' s2'] H2. injection Hc as -> -> ->.
     assert (P0 : pre [] (cs_init t0)).
     { split; [intros b i []|]. intros v e Hv. discriminate. }
     destruct (collect_ok fuel _ [] _ _ _ [] Hi (fun _ _ F => F) P0 (Forall2_nil _) H1) as [A1 [P1 D1]].
